@@ -30,7 +30,7 @@ fn publish_msg(i: usize, size: usize) -> Vec<Vec<u8>> {
 
 fn scenario(pr: &Params) -> Verdict {
     e3::set_hash_key(pr.hash_key);
-    world::reset(world::WorldCfg { nested_env: false, yields: true, select: true, policy: pr.bound_policy });
+    world::reset(world::WorldCfg { nested_env: false, yields: true, select: true, policy: pr.bound_policy, coop: false });
     let ty = pr.ty;
     let n_slow = if pr.two_slow { 2 } else { 1 };
     let slow: Vec<e3::RawConn> = (0..n_slow).map(|i| e3::raw_conn(&format!("slow{}", i))).collect();
